@@ -302,21 +302,26 @@ class EarleyParser(Parser):
     def parse_prefix(self, text):
         self.table = self.chart_parse(text, self.start_symbol())
         for col in reversed(self.table):
-            states = [st for st in col.states if st.name == self.start_symbol()]
+            states = [
+                st
+                for st in col.states
+                if st.name == self.start_symbol() and st.s_col.index == 0
+            ]
             if states:
                 return col.index, states
         return -1, []
 
     def parse(self, text) -> Generator:
         cursor, states = self.parse_prefix(text)
-        start = next((s for s in states if s.finished()), None)
+        starts = [s for s in states if s.finished()]
 
-        if cursor < len(text) or not start:
+        if cursor < len(text) or not starts:
             raise SyntaxError("at " + repr(text[cursor:]))
 
-        forest = self.parse_forest(self.table, start)
-        for tree in self.extract_trees(forest):
-            yield self.prune_tree(tree)
+        for start in starts:
+            forest = self.parse_forest(self.table, start)
+            for tree in self.extract_trees(forest):
+                yield self.prune_tree(tree)
 
     def parse_paths(self, named_expr, chart, frm, til):
         def paths(state, start, k, e):
